@@ -108,7 +108,8 @@ Apply(sh, i) == IF i.pos = 0 THEN sh ELSE SubSeq(sh, 1, i.pos - 1) \o <<i.line>>
 Lines == Apply(sheet, ins)
 
 NTracks(sh) == Len(SelectSeq(sh, LAMBDA l : l.c = "TRACK"))
-LastTime(sh) == LET ix == SelectSeq(sh, LAMBDA l : l.c = "INDEX" /\ l.a = 1) IN
+\* one more than the latest index time used so far (the next track must start later)
+LastTime(sh) == LET ix == SelectSeq(sh, LAMBDA l : l.c = "INDEX") IN
                 IF ix = <<>> THEN 0 ELSE LET l == ix[Len(ix)] IN Frames(<<1, l.m, l.s, l.f>>) + 1
 
 Init == /\ sheet = <<FileLine("image.bin")>> /\ ins = NoIns /\ binlen = 0 /\ phase = "build"
@@ -117,14 +118,15 @@ AddTrack ==
   /\ phase = "build" /\ NTracks(sheet) < MaxTracks
   /\ \E ti \in 1..Len(Times) : \E titled \in BOOLEAN, pre \in BOOLEAN, extra \in BOOLEAN :
        /\ Frames(<<1>> \o Times[ti]) + 1 > LastTime(sheet)
+       /\ pre => ti < Len(Times)             \* INDEX 00 at Times[ti], INDEX 01 at the next time of the list
        /\ LET n == NTracks(sheet) + 1
               mode == IF WithData /\ n = 1 THEN "MODE1/2352" ELSE "AUDIO"
               t == Times[ti]
           IN sheet' = sheet \o <<TrackLine(n, mode)>>
                         \o (IF titled THEN <<TitleLine(<<"Intro", "Second Song", "03 - Outro">>[n])>> ELSE <<>>)
-                        \o (IF pre THEN <<IndexLine(0, t)>> ELSE <<>>)      \* pregap index listed first
-                        \o <<IndexLine(1, t)>>
-                        \o (IF extra THEN <<IndexLine(2, <<t[1], t[2] + 1, t[3]>>)>> ELSE <<>>)
+                        \o (IF pre THEN <<IndexLine(0, t)>> ELSE <<>>)      \* pregap index listed first: it is the first index
+                        \o <<IndexLine(1, IF pre THEN Times[ti + 1] ELSE t)>>
+                        \o (IF extra THEN <<IndexLine(2, LET u == IF pre THEN Times[ti + 1] ELSE t IN <<u[1], u[2] + 1, u[3]>>)>> ELSE <<>>)
   /\ UNCHANGED <<ins, binlen, phase>>
 
 \* cosmetic insertions the property allows: blank lines anywhere; unknown lines before FILE or inside a track
